@@ -167,7 +167,14 @@ def run(ctx):
                   (lfd.t == {'DELAY_MS': 1000000} and lfd.c == 0)) \
                 and scfg.dominates(scfg.vertex_of(gt[0]), scfg.vertex_of(adds[0])) and scfg.dominates(scfg.vertex_of(adds[0]), scfg.vertex_of(sets[0])) is not None
             atoms = q.controlling_atoms(sc, adds[0])
-            ok = ok and any(pol and q.refers_to_decl(a, sc.param_ids[1]) for a, pol in atoms)
+            def nonzero(a, pol):
+                s_ = a.strip(casts=True)
+                if s_.k == 'DeclRefExpr':
+                    return pol and q.refers_to_decl(a, sc.param_ids[1])
+                if s_.k == 'BinaryOperator' and q.refers_to_decl(s_.children[0], sc.param_ids[1]) and s_.children[1].strip(casts=True).value == 0:
+                    return (s_.op in ('!=', '>') and pol) or (s_.op == '==' and not pol)
+                return False
+            ok = ok and any(nonzero(a, pol) for a, pol in atoms)
     ctx.check(ok, 'R31.5', T + 'schedule#due', sets[0].loc, 'due time = clock reading + delay(ms) × 1e6 ns')
     iv = [w for (w, m) in q.member_writes(sc, 'FIX8::TimerEvent::_intervalMS')]
     ctx.check(len(iv) == 1 and q.refers_to_decl(iv[0].children[1], sc.param_ids[1]), 'R31.5', T + 'schedule#interval', sc.loc,
@@ -175,12 +182,27 @@ def run(ctx):
     # R31.6 clear
     cl = prog.fn1(T + 'clear', tmpl=('inst',))
     ctx.saw(cl)
-    loops = [n for n in cl.all_nodes() if n.k == 'WhileStmt']
-    ok = False
-    if len(loops) == 1:
-        cnd = loops[0].child('cond')
-        ok = any(x.is_call and x.callee is not None and x.callee.get('n') in ('size', 'empty') for x in cnd.walk()) and \
-            any(x.is_call and x.callee is not None and x.callee.get('n') == 'pop' for x in loops[0].child('body').walk())
+    # whatever the loop is written as: clear() returns only through an edge on which the queue was just seen empty, and it pops on a cycle
+    ccfg = cl.cfg
+
+    def not_empty_edge(v, w, lab):
+        if lab is None or not isinstance(lab[1], bool):
+            return True
+        cn = ccfg.cond_node(lab[0])
+        if cn is None:
+            return True
+        a, pol = q.polar(cn, lab[1])
+        s_ = a.strip(casts=True)
+        if s_.is_call and s_.callee is not None and s_.obj is not None and q.refers_to_member(s_.obj, T + '_event_queue'):
+            if s_.callee.get('n') == 'empty':
+                return not pol           # the edge on which empty() is true is removed
+            if s_.callee.get('n') == 'size':
+                return pol               # size() == 0 is the false edge
+        return True
+    reach_ne = ccfg.reach_from(ccfg.entry, edge_ok=not_empty_edge) | {ccfg.entry}
+    rets_c = [v for (v, kind, n) in ccfg.exits() if kind in ('return', 'falloff')]
+    pops = [c for c in cl.calls() if c.callee is not None and c.callee.get('n') == 'pop' and c.obj is not None and q.refers_to_member(c.obj, T + '_event_queue') and ccfg.has_vertex(c)]
+    ok = bool(rets_c) and not any(v in reach_ne for v in rets_c) and any(ccfg.vertex_of(c) in ccfg.reach_from(ccfg.vertex_of(c)) for c in pops)
     ctx.check(ok, 'R31.6', T + 'clear#drain', cl.loc, 'clear() pops until the queue is empty')
     ctx.floor('R31.1', 3)
     ctx.floor('R31.4', 8)
